@@ -290,9 +290,9 @@ func ruleC17(prog *Program, rep *Report) {
 	ruleLoopFlag(prog, rep, "B-flag")
 	ruleScopedFlag(prog, rep)
 	// tokenizer events
-	rep.Rules = append(rep.Rules, "A-events: the events oj.Tokenizer emits agree with the reference at every byte in single- and multi-document mode (see C03)")
+	rep.Rules = append(rep.Rules, "A-events: the events oj.Tokenizer emits agree with the reference at every byte in single- and multi-document mode (see C03) and no reachable step of the tokenizer panics (a panic in MatchLoad is not parse-then-locate)")
 	results := exploreFrontEnds(prog, []feSpec{jsonFrontEnds[2]}, []bool{false, true}, false)
-	applyParseResults(rep, results, union(kindsEvents, map[string]bool{"stale-scratch": true}), "A-events", 18) // a key with a stale prefix is not matched
+	applyParseResults(rep, results, union(kindsEvents, kindsPanic, map[string]bool{"stale-scratch": true}), "A-events", 18) // a key with a stale prefix is not matched
 }
 
 // ruleScopedFlag: in jp.PathMatch style code (a switch over fragment kinds
